@@ -16,6 +16,10 @@ const PLACEHOLDER: u64 = 0x0000_ffff_ffff_fff1;
 fn ph() -> Item {
     Item::Tag(PLACEHOLDER, Box::new(Item::Null))
 }
+/// stands for n + 1 (skipped when n + 1 leaves CBOR's range)
+fn ph_next() -> Item {
+    Item::Tag(PLACEHOLDER + 2, Box::new(Item::Null))
+}
 
 /// every encoding of n: each head width >= minimal, and bignum with 0-3 leading zeros
 pub fn int_encodings(n: i128) -> Vec<Vec<u8>> {
@@ -107,6 +111,10 @@ fn positions() -> Vec<Pos> {
     for l in [0i64, 6, 7, -1, -2, -3, -4, -5, -12, -70000] {
         out.push(Pos { name: "key extra under a key-type-specific / unknown label", ty: Ty::Key, template: m(vec![(Item::int(1), Item::int(2)), (Item::int(l), ph())]), interpreting: false });
     }
+    // two different integers as keys of one map (n and n + 1): neither may shadow the other
+    out.push(Pos { name: "header labels n and n+1", ty: Ty::Header, template: m(vec![(ph(), Item::Null), (ph_next(), Item::Null)]), interpreting: true });
+    out.push(Pos { name: "key labels n and n+1", ty: Ty::Key, template: m(vec![(ph(), Item::Null), (Item::int(1), Item::int(2)), (ph_next(), Item::Null)]), interpreting: true });
+    out.push(Pos { name: "claim keys n and n+1", ty: Ty::Claims, template: m(vec![(ph_next(), Item::Null), (ph(), Item::Null)]), interpreting: true });
     out.push(Pos { name: "header extra under a text label", ty: Ty::Header, template: m(vec![(Item::text("x"), ph())]), interpreting: false });
     out.push(Pos { name: "claims extra under a text key", ty: Ty::Claims, template: m(vec![(Item::text("x"), ph())]), interpreting: false });
     out.push(Pos { name: "extra inside a counter signature's unprotected header", ty: Ty::Header, template: m(vec![(Item::int(7), Item::Array(vec![Item::Bytes(vec![]), m(vec![(Item::int(10), ph())]), Item::Bytes(vec![])]))]), interpreting: false });
@@ -137,9 +145,17 @@ fn subst(template_bytes: &[u8], pat: &[u8], with: &[u8]) -> Vec<u8> {
 fn check_n(ctx: &mut Ctx, n: i128, positions: &[Pos]) {
     let pat = rcbor::det(&ph());
     let pat2 = rcbor::det(&Item::Tag(PLACEHOLDER + 1, Box::new(Item::Null)));
+    let pat3 = rcbor::det(&ph_next());
     let encs = int_encodings(n);
     for p in positions {
-        let tb = rcbor::det(&p.template);
+        let mut tb = rcbor::det(&p.template);
+        if tb.windows(pat3.len()).any(|w| w == &pat3[..]) {
+            if n + 1 > gen::CBOR_MAX || (1..=7).contains(&n) || (0..=6).contains(&n) {
+                // n + 1 unrepresentable, or one of the two would be a typed label with a null value
+                continue;
+            }
+            tb = subst(&tb, &pat3, &rcbor::det(&Item::Int(n + 1)));
+        }
         for (ei, e) in encs.iter().enumerate() {
             let bytes = if tb.windows(pat2.len()).any(|w| w == &pat2[..]) {
                 // the integer sits inside a protected header: build the bstr around the encoded map
